@@ -2181,6 +2181,7 @@ class IrregularLattice(Lattice):
     def _ordering_irreg(self, order):
         """Remove and add irregular sites to the order of the regular lattice."""
         mps_reg = np.arange(len(order))
+        order_reg = order  # the complete order of the regular lattice (before removing sites)
         if self.remove is not None:
             self._perm = np.lexsort(order.T)  # allow to temporarily use lat2mps_idx for lattice
             # indices with u from regular lattice
@@ -2196,7 +2197,13 @@ class IrregularLattice(Lattice):
                 if mps_add[i] is None:
                     close_to = np.array(lat_idx[i])
                     close_to[-1] = len(self.regular_lattice.unit_cell) - 1
-                    mps_add[i] = self.regular_lattice.lat2mps_idx(close_to)
+                    # MPS index of that site in the given `order` (which can differ from the
+                    # current `order` of the regular lattice, e.g. in `self.ordering('snake')`)
+                    match = np.nonzero(np.all(order_reg == close_to, axis=1))[0]
+                    if len(match) == 1:
+                        mps_add[i] = match[0]
+                    else:  # e.g. `x_0` outside of the MPS unit cell
+                        mps_add[i] = self.regular_lattice.lat2mps_idx(close_to)
             mps_add = np.array(mps_add)
             sort = np.argsort(np.concatenate((mps_reg, mps_add)), kind='stable')
             order = np.concatenate((order, np.array(lat_idx)), axis=0)
